@@ -385,6 +385,12 @@ def missing_class(spec, views, name):
     i = first_binding_level(views, name)
     if i is not None and any(l[0] == "inst_method" for l in spec["levels"][:i]):
         return "bound-behind-method-call-on-local-instance"
+    lay = spec.get("layout")
+    top = spec["levels"][0]
+    if isinstance(lay, dict) and lay["blank"] == 0 and top[0] == "super" and gen.op_hard_positional(top[2]) and i is not None and i >= 1:
+        # the root class has no __init__ of its own and the __init__ it inherits gives the first positional parameter
+        # at its super().__init__ call; the name is bound below that call
+        return "below-positional-given-at-super-call-of-inherited-init"
     return name_class(spec, name)
 
 
